@@ -507,6 +507,7 @@ func c12(ctx *Ctx) {
 		pk = 300
 	}
 	c12PacketConcurrentReads(ctx)
+	managerCrossKind(ctx, "C12")
 	for i := 0; i < pk; i++ {
 		fs, st := runC12Packet(r)
 		for _, f := range fs {
@@ -516,5 +517,73 @@ func c12(ctx *Ctx) {
 			ctx.CountN(k, v)
 		}
 		ctx.Count("packet:runs")
+	}
+}
+
+// managerCrossKind: a stream listener and a packet listener on the SAME address string in one
+// manager. Releasing the last handle of one kind must not disturb the other kind: its open handles
+// keep sharing one socket, a further acquisition succeeds, and afterwards both kinds can be
+// acquired again.
+func managerCrossKind(ctx *Ctx, prop string) {
+	for round := 0; round < 4; round++ {
+		mgr := service.NewListenerManager()
+		addr := fmt.Sprintf("127.0.0.1:%d", freeLowPorts(1))
+		fail := func(what string, err error) {
+			ctx.Monitor(prop+"/cross-kind-sharing-broken", fmt.Sprintf("stream and packet listeners on %s in one manager: %s: %v", addr, what, err), map[string]interface{}{"round": round})
+		}
+		done := make(chan struct{})
+		go func() {
+			defer close(done)
+			s1, err := mgr.ListenStream(addr)
+			if err != nil {
+				fail("first ListenStream", err)
+				return
+			}
+			p1, err := mgr.ListenPacket(addr)
+			if err != nil {
+				fail("first ListenPacket", err)
+				s1.Close()
+				return
+			}
+			if round%2 == 0 {
+				s1.Close() // the last stream handle goes while a packet handle is open
+				p2, err := mgr.ListenPacket(addr)
+				if err != nil {
+					fail("ListenPacket after the last stream handle of the address was closed (a packet handle is still open)", err)
+				} else {
+					p2.Close()
+				}
+				p1.Close()
+			} else {
+				p1.Close() // the last packet handle goes while a stream handle is open
+				s2, err := mgr.ListenStream(addr)
+				if err != nil {
+					fail("ListenStream after the last packet handle of the address was closed (a stream handle is still open)", err)
+				} else {
+					s2.Close()
+				}
+				s1.Close()
+			}
+			// everything is released: both kinds can be had again
+			s3, err := mgr.ListenStream(addr)
+			if err != nil {
+				fail("ListenStream after everything was released", err)
+			} else {
+				s3.Close()
+			}
+			p3, err := mgr.ListenPacket(addr)
+			if err != nil {
+				fail("ListenPacket after everything was released", err)
+			} else {
+				p3.Close()
+			}
+		}()
+		select {
+		case <-done:
+		case <-time.After(5 * time.Second):
+			ctx.Monitor(prop+"/call-never-returned:cross-kind", "a Listen or Close call on a manager with stream and packet listeners on one address did not return within 5 s", nil)
+			return
+		}
+		ctx.Count("cross-kind:rounds")
 	}
 }
